@@ -880,6 +880,7 @@ func (c *Conn) handleReturn(ctx context.Context, ret rpccp.Return, releaseRet ca
 		q.p.Reject(pr.err)
 		q.bootstrapPromise.Fulfill(q.p.Answer().Client())
 		q.p.ReleaseClients()
+		clearCapTable(ret.Message())
 		releaseRet()
 		c.mu.Lock()
 	case q.bootstrapPromise == nil && pr.err != nil:
@@ -888,6 +889,7 @@ func (c *Conn) handleReturn(ctx context.Context, ret rpccp.Return, releaseRet ca
 		q.release = func() {}
 		c.mu.Unlock()
 		q.p.Reject(pr.err)
+		clearCapTable(ret.Message())
 		releaseRet()
 		c.mu.Lock()
 	default:
@@ -1146,7 +1148,10 @@ func (c *Conn) recvPayload(payload rpccp.Payload) (_ capnp.Ptr, locals uintSet, 
 		var err error
 		mtab[i], local, err = c.recvCap(ptab.At(i))
 		if err != nil {
-			releaseList(mtab[:i]).release()
+			// Releasing a client can call back into the Conn
+			// (importClient.Shutdown locks c.mu): leave the clients received
+			// so far in the message for the caller's clearCapTable.
+			payload.Message().CapTable = mtab[:i]
 			return capnp.Ptr{}, nil, annotate(err).errorf("read payload: capability %d", i)
 		}
 		if local {
